@@ -51,6 +51,18 @@ pub struct FnDirective {
     /// R8 (opt-in, `//@ allow-unsafe`): `unsafe { B }` -> `{ B }`, and `use core::arch::..::X;` items directly inside such a block are
     /// deleted so that the intrinsic name `X` resolves to the template's shim model of it (the unit's stated modelling assumption)
     pub allow_unsafe: bool,
+    /// R19 (opt-in, `//@ let-as <var> <replacement expression>` followed by `//@|` lines quoting the EXPECTED initialiser): the initialiser of the
+    /// statement `let [mut] <var> [: T] = <init>;` is replaced by <replacement expression> (a call of a helper fn declared in the template whose
+    /// external body is <init> itself and whose contract is the ASSUMED specification of that iterator chain). vx refuses (exit 2, "undecided")
+    /// when the whitespace-stripped source text of <init> differs from the quoted text, so the assumption is tied to the exact source text.
+    pub let_as: Vec<LetAs>,
+}
+
+#[derive(Clone, Debug, Default)]
+pub struct LetAs {
+    pub var: String,
+    pub call: String,
+    pub expect: Vec<String>,
 }
 
 #[derive(Clone, Debug)]
@@ -132,6 +144,7 @@ enum Target {
     Spec,
     Loop(usize),
     Anchor(usize),
+    LetAs(usize),
     None,
 }
 
@@ -161,6 +174,7 @@ fn parse_fn_block(name_line: &str, lines: &[(bool, String)]) -> FnDirective {
                 Target::Spec => f.spec.push(l.clone()),
                 Target::Loop(n) => f.loops.get_mut(&n).unwrap().lines.push(l.clone()),
                 Target::Anchor(k) => f.anchors[k].lines.push(l.clone()),
+                Target::LetAs(k) => f.let_as[k].expect.push(l.clone()),
                 Target::None => die(&format!("raw line without target: {}", l)),
             }
             continue;
@@ -192,6 +206,15 @@ fn parse_fn_block(name_line: &str, lines: &[(bool, String)]) -> FnDirective {
                     (Some(a), Some(b)) => curfn!().call_as.push((a.to_string(), b.to_string())),
                     _ => die("call-as needs <callee path> <fn>"),
                 }
+            }
+            "let-as" => {
+                let (var, call) = match rest.split_once(char::is_whitespace) {
+                    Some((v, c)) if !c.trim().is_empty() => (v.to_string(), c.trim().to_string()),
+                    _ => die("let-as needs <var> <replacement expression>"),
+                };
+                let f = curfn!();
+                f.let_as.push(LetAs { var, call, expect: vec![] });
+                tgt = Target::LetAs(f.let_as.len() - 1);
             }
             "loop" => {
                 let mut it = rest.split_whitespace();
